@@ -111,6 +111,27 @@ def build(case):
                     root.promotes('g1', inputs=[(uniq, s['name'])], **kw('root', True))
                 else:
                     root.promotes(t['name'], inputs=[(inp['name'], s['name'])], **kw('root', True))
+    if case.get('dang'):
+        d = case['dang']
+        i = d['inp']
+        s = srcs['dy']
+        G = om.Group()
+        G.add_subsystem('ivc', om.IndepVarComp('y', val=np.array(s['vals'], dtype=float).reshape(s['shape']),
+                                               units=s['units']))
+        G.add_subsystem('c', Sink(spec={'inputs': [i]}), promotes_inputs=[('x', 'dx')])
+        kw = {}
+        if i['chain']:
+            lv = i['chain'][0]
+            kw['src_indices'] = om_idx(lv['ix'])
+            if lv['flat'] is not None:
+                kw['flat_src_indices'] = lv['flat']
+        G.connect('ivc.y', 'dx', **kw)
+        if d['levels'] == 1:
+            root.add_subsystem('D', G, promotes_inputs=['dx'])
+        else:
+            H = om.Group()
+            H.add_subsystem('D', G, promotes_inputs=['dx'])
+            root.add_subsystem('H', H, promotes_inputs=['dx'])
     for s in case['sources']:
         if s['kind'] == 'auto' and s['defaults']:
             root.set_input_defaults(s['name'], val=np.array(s['vals'], dtype=float).reshape(s['shape']),
@@ -134,6 +155,8 @@ def run_history(case, hist, srcabs):
         out = {}
         for s in case['sources']:
             nm = ('ivc.' + s['name']) if s['kind'] == 'ivc' else s['name']
+            if s['kind'] == 'dang':
+                nm = case['dang']['prefix'] + 'ivc.y'
             kw = {'units': s['units']} if (s['kind'] == 'auto' and s['units']) else {}
             out[s['name']] = np.array(p.get_val(nm, **kw), dtype=float).ravel().copy()
         return out
